@@ -97,7 +97,7 @@ def concretise_derivation(rec):
 
 def nesting_inputs(tier):
     out = []
-    ns = [999, 1000, 1001, 5000] + ([20000] if tier == "thorough" else [])
+    ns = [999, 1000, 1001, 5000, 100000]       # 100000: far beyond the C stack if a depth guard is missing
 
     def add(kind, n, body):
         out.append((("fn main() -> int {\n" + body + "\nreturn 0 }\n").encode(), 0, dict(fam="nest", kind=kind, n=n)))
@@ -117,10 +117,10 @@ def nesting_inputs(tier):
         add("call-chain", n, "let v: int = " + "(f " * n + "1" + ")" * n)
         add("struct-lit", n, "let v: int = " + "P { a: " * n + "1" + " }" * n)
         add("match-nest", n, "match x { A(a) => { " * n + "}" * (2 * n))
-    for n in [1999, 2000, 2001, 5000] + ([50000, 200000] if tier == "thorough" else [20000]):
+    for n in [1999, 2000, 2001, 5000, 200000]:
         add("infix-chain", n, "let v: int = 1" + " + 1" * n)
         add("and-chain", n, "let v: bool = true" + " and true" * n)
-        add("dot-chain", n, "let v: int = t" + ".0" * n)
+        add("tuple-index-chain", n, "let v: int = t" + ".0 " * n)
     return out
 
 
@@ -355,16 +355,20 @@ def run(ctx):
         ctx.save_replay(name + ".json", json.dumps(dict(property=PROP, what=what, meta=meta, extra=extra), indent=1, default=str))
         ctx.violation("%s; input class %s" % (what, json.dumps(meta, default=str)[:300]), path)
 
-    def match_finding(kind, loop=None, site=None, phase=None):
+    def match_finding(kind, loop=None, site=None, phase=None, meta=None):
         for f in findings:
             mt = f.get("match", {})
             if mt.get("verdict") != kind:
                 continue
             if kind == "HANG" and mt.get("loop") == loop:
                 return f
+            if kind == "CRASH" and mt.get("input_family") and meta and meta.get("fam") == mt["input_family"] and \
+                    meta.get("kind") in mt.get("kinds", []) and meta.get("n", 0) >= mt.get("min_n", 0):
+                return f
             if kind in ("SANITIZER", "CRASH") and site and mt.get("function") in site[1][:1] and \
                     (not mt.get("report") or mt.get("report") == site[0]) and \
-                    (not mt.get("line_text") or mt.get("line_text") == site[2]):
+                    (not mt.get("line_text") or mt.get("line_text") == site[2]) and \
+                    (not mt.get("caller") or mt.get("caller") in site[1]):
                 return f
         return None
 
@@ -401,9 +405,25 @@ def run(ctx):
         elif v in ("C", "S"):
             for i in idxs[:25]:
                 c = real.run(items[i][0], sanitize=True, limit_s=60)
+                if c["kind"] == "sanitizer" and "stack-overflow" in c["err"][:400]:
+                    # ASan frames are several times larger than the real ones: a stack overflow counts only
+                    # if the uninstrumented binary dies on the same input
+                    c2 = real.run(items[i][0], sanitize=False, limit_s=60)
+                    if c2["kind"] != "signal":
+                        log("C09: stack overflow under ASan only (%s; plain build: %s): not reported" % (items[i][2], c2["kind"]))
+                        continue
+                    site = san_site(c["err"], asan_tree)
+                    f = match_finding("CRASH", meta=items[i][2])
+                    if f:
+                        known_counts[f["id"]] = known_counts.get(f["id"], 0) + 1
+                        ctx.known(f["id"], "nano_virt dies from signal %s on %r (recursion through %s)" % (-c2["rc"], items[i][2], "/".join(site[1][:2])))
+                    else:
+                        violation("the front end overflows the C stack (signal %s; recursion through %s)" % (-c2["rc"], "/".join(site[1])),
+                                  items[i][0], items[i][2])
+                    continue
                 if c["kind"] in ("sanitizer", "signal"):
                     site = san_site(c["err"], asan_tree)
-                    f = match_finding("SANITIZER" if c["kind"] == "sanitizer" else "CRASH", site=site)
+                    f = match_finding("SANITIZER" if c["kind"] == "sanitizer" else "CRASH", site=site, meta=items[i][2])
                     if f:
                         known_counts[f["id"]] = known_counts.get(f["id"], 0) + 1
                         ctx.known(f["id"], "%s %s in %s on %r" % (c["kind"], site[0], "/".join(site[1]), items[i][2]))
